@@ -350,6 +350,23 @@ def collect(repo):
     return data, names, toks
 
 
+def parser_skeleton(repo):
+    """control-flow skeleton of the generated recursive-descent parsers: the sequence of prediction
+    decisions, of ATN state numbers entered and of tokens matched, in source order. ANTLR emits the same
+    skeleton for every language target."""
+    import re
+    py = open(os.path.join(repo, "blackbird_python", "blackbird", "blackbirdParser.py"), encoding="utf-8").read()
+    cpp = open(os.path.join(repo, "blackbird_cpp", "blackbirdParser.cpp"), encoding="utf-8").read()
+    return {
+        "pyPredict": [int(x) for x in re.findall(r"adaptivePredict\(self\._input,\s*(\d+),\s*self\._ctx\)", py)],
+        "cppPredict": [int(x) for x in re.findall(r"adaptivePredict\(_input,\s*(\d+),\s*_ctx\)", cpp)],
+        "pyStates": [int(x) for x in re.findall(r"self\.state = (\d+)", py)],
+        "cppStates": [int(x) for x in re.findall(r"setState\((\d+)\)", cpp)],
+        "pyMatch": re.findall(r"self\.match\(blackbirdParser\.([A-Z_]+)\)", py),
+        "cppMatch": re.findall(r"match\(blackbirdParser::([A-Z_]+)\)", cpp),
+    }
+
+
 def emit_artefacts(data, names, toks):
     out = ["/- GENERATED by harness/translate.py from the generated lexers/parsers in /repo — do not edit -/", "",
            "namespace Gen", ""]
@@ -359,6 +376,11 @@ def emit_artefacts(data, names, toks):
         out.append(emit_str_list(k, names[k]))
     for k in sorted(toks):
         out.append(emit_tokens(k, toks[k]))
+    sk = parser_skeleton(REPO)
+    for k in ("pyPredict", "cppPredict", "pyStates", "cppStates"):
+        out.append(emit_nat_list(k, sk[k]))
+    for k in ("pyMatch", "cppMatch"):
+        out.append(emit_str_list(k, sk[k]))
     out.append("end Gen")
     return "\n".join(out) + "\n"
 
